@@ -1,0 +1,84 @@
+//go:build verif
+
+package printer
+
+import (
+	"github.com/goplus/xgo/ast"
+	"github.com/goplus/xgo/token"
+)
+
+// VerifQueue drives the comment queue of a real printer (nextComment, commentBefore,
+// commentSizeBefore, flush, intersperseComments) over a synthetic comment list.
+// It exists only under the build tag "verif" (verification harness); it adds no
+// behaviour to the package.
+type VerifQueue struct {
+	p    printer
+	file *token.File
+}
+
+// VerifInfinity is the printer's "infinity" offset.
+const VerifInfinity = infinity
+
+// VerifNewQueue builds a printer whose p.comments are the given groups: groups[i] lists
+// the (offset, text) pairs of the comments of group i; lines are the offsets of the
+// line starts of a synthetic file of the given size. As printNode does, it then calls
+// p.nextComment().
+func VerifNewQueue(size int, lines []int, offs [][]int, texts [][]string) *VerifQueue {
+	fset := token.NewFileSet()
+	f := fset.AddFile("q.xgo", fset.Base(), size)
+	f.SetLines(lines)
+	q := &VerifQueue{file: f}
+	q.p.init(&Config{Tabwidth: 8}, fset, make(map[ast.Node]int))
+	comments := make([]*ast.CommentGroup, len(offs))
+	for i := range offs {
+		g := &ast.CommentGroup{}
+		for j, o := range offs[i] {
+			g.List = append(g.List, &ast.Comment{Slash: f.Pos(o), Text: texts[i][j]})
+		}
+		comments[i] = g
+	}
+	q.p.comments = comments
+	q.p.useNodeComments = q.p.comments == nil
+	q.p.nextComment()
+	return q
+}
+
+func (q *VerifQueue) position(off int) token.Position {
+	if off >= infinity {
+		return token.Position{Offset: off, Line: infinity}
+	}
+	if off > q.file.Size() {
+		return token.Position{Offset: off, Line: q.file.LineCount() + 1, Column: 1}
+	}
+	return q.p.posFor(q.file.Pos(off))
+}
+
+// Flush is what print does to the queue for one token: p.flush(next, tok) under the
+// given p.impliedSemi.
+func (q *VerifQueue) Flush(next int, impliedSemi bool, tok token.Token) {
+	q.p.impliedSemi = impliedSemi
+	q.p.flush(q.position(next), tok)
+}
+
+// Final is the tail of fprint: p.impliedSemi = false; p.flush(infinity, EOF).
+func (q *VerifQueue) Final() {
+	q.p.impliedSemi = false
+	q.p.flush(token.Position{Offset: infinity, Line: infinity}, token.EOF)
+}
+
+// SizeBefore calls p.commentSizeBefore(next) under the given p.impliedSemi.
+func (q *VerifQueue) SizeBefore(next int, impliedSemi bool) int {
+	q.p.impliedSemi = impliedSemi
+	return q.p.commentSizeBefore(q.position(next))
+}
+
+// Before calls p.commentBefore(next) under the given p.impliedSemi.
+func (q *VerifQueue) Before(next int, impliedSemi bool) bool {
+	q.p.impliedSemi = impliedSemi
+	return q.p.commentBefore(q.position(next))
+}
+
+// State returns the commentInfo fields and the raw output written so far.
+func (q *VerifQueue) State() (cindex, commentOffset int, commentNewline, hasComment bool, output []byte) {
+	return q.p.cindex, q.p.commentOffset, q.p.commentNewline, q.p.comment != nil, q.p.output
+}
